@@ -455,12 +455,12 @@ Proof.
         apply streqb_neq in Hnk. rewrite Hnk. apply (inv_cu I _ _ _ Ec Hn).
       * apply streqb_neq in E. intros Hc0 Hn. destruct (inv_cu I _ _ _ Hc0 Hn) as (u0 & Hu0 & Hin).
         destruct (streqb n ku) eqn:En; [|eauto]. apply streqb_eq in En. subst n. rewrite Eu in Hu0. injection Hu0 as <-.
-        exfalso. assert (Hin' : In kc0 (u_chans u')) by (apply INU; split; assumption). rewrite <- Hucl in Hin'. destruct Hin'.
+        exfalso. assert (Hin' : In kc0 []) by (apply INU; split; assumption). destruct Hin'.
     + intros k0 u0 cn. rewrite alookup_aset, alookup_aremove. destruct (streqb k0 ku) eqn:E; [discriminate|].
       apply streqb_neq in E. intros Hu0 Hcn. destruct (inv_uc I _ _ _ Hu0 Hcn) as (c0 & Hc0 & Hin).
       destruct (streqb cn kc) eqn:En; [|eauto]. apply streqb_eq in En. subst cn. rewrite Ec in Hc0. injection Hc0 as <-.
       exists c'. split; [reflexivity|]. apply INC. split; assumption.
-  - constructor; sproj.
+  - rewrite Hucl in INU, SSU. constructor; sproj.
     + intros k c0. rewrite alookup_aset. destruct (streqb k kc) eqn:E; [|apply (inv_ckey I)].
       apply streqb_eq in E. subst k. intros H; injection H as <-. exact NC.
     + intros k u0. rewrite alookup_aset. destruct (streqb k ku) eqn:E; [|apply (inv_ukey I)].
